@@ -1126,7 +1126,10 @@ namespace awkward {
         contents.push_back(raw->content());
       }
       else if (RegularArray* raw = dynamic_cast<RegularArray*>(array.get())) {
-        contents.push_back(raw->content());
+        // the same (trimmed) content that the starts/stops computed below refer to
+        ContentPtr listoffsetarray = raw->toListOffsetArray64(true);
+        contents.push_back(
+          dynamic_cast<ListOffsetArray64*>(listoffsetarray.get())->content());
       }
       else if (EmptyArray* raw = dynamic_cast<EmptyArray*>(array.get())) {
         ;
